@@ -9,7 +9,7 @@ Definition dflt : actor := {| pc := CSetRet false; actx := false; ach := ChOpen 
 (* facts about promise p (record q) against the actor table l *)
 Definition pok (l : list actor) (p : nat) (q : prom) : Prop :=
   (isdone q = false -> dclosed q = false /\ nswaps q = 0 /\ wres q = None /\ pre q = false) /\
-  (isdone q = true -> 1 <= nswaps q) /\
+  (isdone q = true -> 1 <= nswaps q /\ wres q <> None) /\
   cnt (won p) l = (if pre q then 0 else b2n (isdone q)) /\
   cnt (at_pubgate p) l + b2n (dclosed q) = b2n (isdone q) /\
   nwrites q = b2n (dclosed q) /\
@@ -230,10 +230,12 @@ Proof.
   destruct (getch b) as [b' ch]. cbn [fst snd] in *. destruct Ho as [H1 [H2 _]]. repeat split; auto.
 Qed.
 
-Ltac actor_simple HI G :=
+Ltac actor_simple HI G Epc :=
   unfold with_acts; erewrite seta_eq by exact G;
   apply (inv_actor _ _ _ _ _ _ HI G);
-  [ intros ?; reflexivity | intros ?; reflexivity | apply HI | lia | intros ch0 _ Hc0; auto | apply HI | ].
+  [ intros ?; unfold won; cbn [pc]; rewrite Epc; reflexivity
+  | intros ?; unfold at_pubgate; cbn [pc]; rewrite Epc; reflexivity
+  | apply HI | lia | intros ch0 _ Hc0; auto | apply HI | ].
 
 Lemma stepg_inv fixed s e : Inv s -> Inv (stepg fixed s e).
 Proof.
@@ -279,9 +281,10 @@ Proof.
         -- unfold pok; cbn [isdone dclosed nswaps wres pre nwrites fval ferr].
            rewrite (cnt_set_nth_eq (won p) _ _ _ _ G), (cnt_set_nth_eq (at_pubgate p) _ _ _ _ G);
              [|unfold at_pubgate; cbn [pc]; now rewrite Epc | unfold won; cbn [pc]; now rewrite Epc].
+           destruct (P2 eq_refl) as [P2a P2b].
            repeat split; auto; try discriminate; lia.
         -- intros k0 y Hne Hk. apply (aok_prom_upd _ _ _ _ _ q _ (HA k0 y Hk) Gp); cbn [wres pre dclosed fval ferr]; [intros r0 Hr; first [exact Hr | congruence] | reflexivity | intros Hc; first [congruence | auto]].
-        -- unfold aok; cbn [pc]. rewrite length_set_nth. split; [exact Hx|]. specialize (P2 eq_refl). split; [discriminate | lia].
+        -- unfold aok; cbn [pc]. rewrite length_set_nth. split; [exact Hx|]. destruct (P2 eq_refl) as [P2a P2b]. split; [discriminate | lia].
       * destruct (P1 eq_refl) as (D1 & D2 & D3 & D4).
         erewrite seta_eq by exact G.
         apply (inv_prom_actor s a x _ p q _ HI G Gp).
@@ -320,49 +323,612 @@ Proof.
         replace (at_pubgate p {| pc := PSetRet p true 0; actx := actx x; ach := ach x |}) with false in C2
           by (unfold at_pubgate; cbn [pc]; reflexivity).
         cbn [b2n] in *.
+        pose proof (P2 Hdn) as [P2a P2b].
         rewrite Hdc, Hdn, Hpre in *. cbn [b2n] in *.
         repeat split; auto; try discriminate; try lia.
       * intros k0 y Hne Hk. apply (aok_prom_upd _ _ _ _ _ q _ (HA k0 y Hk) Gp); cbn [wres pre dclosed fval ferr]; [intros r0 Hr; first [exact Hr | congruence] | reflexivity | intros Hc; first [congruence | auto]].
       * unfold aok; cbn [pc]. rewrite length_set_nth. split; [eapply nth_error_nth_len; eauto | tauto].
     + (* Promise.Await* *)
       destruct (pick (rdy_direct s x k p) c) as [|[|[|[|[|n]]]]] eqn:Ep; try exact HI.
-      * actor_simple HI G. exact I.
-      * actor_simple HI G. exact I.
+      * actor_simple HI G Epc. exact I.
+      * actor_simple HI G Epc. exact I.
       * apply pick_ready in Ep. cbn [rdy_direct] in Ep. apply pclosed_true in Ep as [q [Gp Hd]]. rewrite Gp.
-        actor_simple HI G. unfold aok; cbn [pc]. exists q. auto.
+        actor_simple HI G Epc. unfold aok; cbn [pc]. exists q. auto.
     + (* container await: section *)
       pose proof (getch_facts (cb s) Hwf) as (F1 & F2 & F3 & F4 & F5). destruct (getch (cb s)) as [b' ch]. cbn [fst snd] in *.
       erewrite seta_eq by exact G.
-      apply (inv_actor _ _ _ _ _ _ HI G); auto.
+      apply (inv_actor _ _ _ _ _ _ HI G).
       * intros p0. unfold won. cbn [pc]. rewrite Epc. now destruct (cprom s).
       * intros p0. unfold at_pubgate. cbn [pc]. rewrite Epc. now destruct (cprom s).
+      * exact F1.
+      * exact F2.
       * intros ch0 Hc0 Hcl. rewrite F5 in Hcl by exact Hc0. auto.
+      * exact Hcp.
       * unfold aok; cbn [pc]. destruct (cprom s) as [p0|] eqn:Ec; cbn; auto.
     + (* container await, nil branch *)
-      destruct (pick (rdy_nil s x k ch) c) as [|[|[|[|n]]]] eqn:Ep; try exact HI; actor_simple HI G; exact I.
+      destruct (pick (rdy_nil s x k ch) c) as [|[|[|[|n]]]] eqn:Ep; try exact HI; actor_simple HI G Epc; exact I.
     + (* container await, promise branch *)
       destruct Hx as [Hp [Hch Hcur]].
       destruct (pick (rdy_prom s x p ch) c) as [|[|[|[|[|n]]]]] eqn:Ep; try exact HI.
-      * actor_simple HI G. exact I.
-      * actor_simple HI G. unfold aok; cbn [pc]. now destruct (actx x).
+      * actor_simple HI G Epc. exact I.
+      * destruct (actx x); actor_simple HI G Epc; exact I.
       * apply pick_ready in Ep. cbn [rdy_prom] in Ep. apply pclosed_true in Ep as [q [Gp Hd]]. rewrite Gp.
-        actor_simple HI G. unfold aok.
-        destruct (ferr q) eqn:Ef; cbn [pc]; try (exists q; auto; fail).
-        destruct (actx x); [cbn [pc]; exists q; auto|].
-        destruct fixed; [|exact I]. destruct (closed (cb s) ch); cbn [pc]; [exact I | exists q; auto].
+        destruct (ferr q) eqn:Ef; [| destruct (actx x); [| destruct fixed; [destruct (closed (cb s) ch)|]] | |];
+          actor_simple HI G Epc; unfold aok; cbn [pc]; try exact I; exists q; auto.
     + (* container SetPromise / SetResult *)
       destruct (r || negb (opt_eqb (cprom s) po)).
       * erewrite seta_eq by exact G.
-        apply (inv_actor _ _ _ _ _ _ HI G); auto.
+        apply (inv_actor _ _ _ _ _ _ HI G).
+        -- intros p0. unfold won. cbn [pc]. now rewrite Epc.
+        -- intros p0. unfold at_pubgate. cbn [pc]. now rewrite Epc.
         -- apply bcast_wf.
+        -- cbn. lia.
         -- intros ch0 Hc0 Hcl. rewrite bcast_closes in Hcl by exact Hc0. discriminate.
         -- intros p0 ->. exact Hx.
         -- exact I.
-      * actor_simple HI G. exact I.
+      * actor_simple HI G Epc. exact I.
     + (* GetPromise *)
       pose proof (getch_facts (cb s) Hwf) as (F1 & F2 & F3 & F4 & F5). destruct (getch (cb s)) as [b' ch]. cbn [fst snd] in *.
       erewrite seta_eq by exact G.
-      apply (inv_actor _ _ _ _ _ _ HI G); auto.
+      apply (inv_actor _ _ _ _ _ _ HI G).
+      * intros p0. unfold won. cbn [pc]. now rewrite Epc.
+      * intros p0. unfold at_pubgate. cbn [pc]. now rewrite Epc.
+      * exact F1.
+      * exact F2.
       * intros ch0 Hc0 Hcl. rewrite F5 in Hcl by exact Hc0. auto.
+      * exact Hcp.
       * exact I.
+Qed.
+
+Lemma init_inv : Inv init.
+Proof.
+  split; [exact I | split; [discriminate | split]]; intros a x H; destruct a; discriminate.
+Qed.
+
+Theorem rung_inv fixed es : Inv (fold_left (stepg fixed) es init).
+Proof. apply fold_inv; [intros s e; apply stepg_inv | apply init_inv]. Qed.
+
+Theorem run_inv es : Inv (run es).
+Proof. apply rung_inv. Qed.
+Theorem run_pinned_inv es : Inv (run_pinned es).
+Proof. apply rung_inv. Qed.
+
+(* ------------------------------------------------------------------ *)
+(* C11 clause 1: exactly the first SetResult returns true *)
+
+Theorem exactly_first_g s p q : Inv s -> nth_error (proms s) p = Some q ->
+  cnt (won p) (acts s) = (if pre q then 0 else b2n (isdone q)) /\
+  (forall a x r t, nth_error (acts s) a = Some x -> pc x = PSetRet p r t -> (r = true <-> t = 0)) /\
+  (forall a x v e t, nth_error (acts s) a = Some x -> pc x = PSetGate p v e t -> t = 0).
+Proof.
+  intros (_ & _ & HP & HA) Gp. destruct (HP p q Gp) as (_ & _ & P3 & _). split; [exact P3 | split].
+  - intros a x r t G Ep. specialize (HA a x G). unfold aok in HA. rewrite Ep in HA. tauto.
+  - intros a x v e t G Ep. specialize (HA a x G). unfold aok in HA. rewrite Ep in HA. destruct HA as [q0 [_ [_ [H _]]]]. exact H.
+Qed.
+
+(* the Swap decides: it wins iff no Swap (and no constructor Store) came before *)
+Theorem swap_decides fixed s a x p v e q c :
+  nth_error (acts s) a = Some x -> pc x = PSet p v e -> nth_error (proms s) p = Some q ->
+  let s' := stepg fixed s (Step a c) in
+  (exists y, nth_error (acts s') a = Some y /\
+             pc y = if isdone q then PSetRet p false (nswaps q) else PSetGate p v e (nswaps q)) /\
+  (exists q', nth_error (proms s') p = Some q' /\ isdone q' = true /\ nswaps q' = S (nswaps q) /\
+              wres q' = if isdone q then wres q else Some (v, e)).
+Proof.
+  intros G Ep Gp. cbn [stepg]. rewrite G, Ep, Gp. destruct (geta _ _ _ G) as [Hl _].
+  pose proof (nth_error_nth_len _ _ _ Gp) as Hlp.
+  destruct (isdone q); cbn [acts proms]; erewrite seta_eq by exact G; (split; [eexists; split; [apply nth_error_set_nth_same; exact Hl | reflexivity] |
+    eexists; split; [apply nth_error_set_nth_same; exact Hlp | cbn; auto]]).
+Qed.
+
+(* ------------------------------------------------------------------ *)
+(* C11 clause 2: fields are published before done is closed and never written again *)
+
+Theorem fields_published_g s p q : Inv s -> nth_error (proms s) p = Some q -> dclosed q = true ->
+  wres q = Some (fval q, ferr q) /\ nwrites q = 1 /\ isdone q = true /\ cnt (at_pubgate p) (acts s) = 0.
+Proof.
+  intros (_ & _ & HP & _) Gp Hd. destruct (HP p q Gp) as (P1 & _ & _ & P4 & P5 & P6 & _).
+  rewrite Hd in *. cbn [b2n] in *. destruct (isdone q) eqn:Ei; cbn [b2n] in *; [|lia].
+  repeat split; auto. lia.
+Qed.
+
+(* a closed promise is never touched again by any event *)
+Theorem closed_stable fixed s e p q : Inv s -> nth_error (proms s) p = Some q -> dclosed q = true ->
+  exists q', nth_error (proms (stepg fixed s e)) p = Some q' /\
+             dclosed q' = true /\ fval q' = fval q /\ ferr q' = ferr q /\ nwrites q' = nwrites q /\ wres q' = wres q.
+Proof.
+  intros HI Gp Hd. pose proof HI as (_ & _ & HP & HA).
+  assert (Same : exists q', nth_error (proms s) p = Some q' /\
+             dclosed q' = true /\ fval q' = fval q /\ ferr q' = ferr q /\ nwrites q' = nwrites q /\ wres q' = wres q)
+    by (exists q; repeat split; auto).
+  assert (Snoc : forall q0, exists q', nth_error (proms s ++ [q0]) p = Some q' /\
+             dclosed q' = true /\ fval q' = fval q /\ ferr q' = ferr q /\ nwrites q' = nwrites q /\ wres q' = wres q)
+    by (intros q0; exists q; split; [now apply nth_error_snoc_lt | repeat split; auto]).
+  destruct e as [|v e|p0 v e|k p0|k|[p0|]|v e| |a|a c|a c]; cbn [stepg]; try exact Same; try apply Snoc.
+  - destruct (Nat.ltb p0 (length (proms s))); exact Same.
+  - destruct (Nat.ltb p0 (length (proms s))); exact Same.
+  - destruct (Nat.ltb p0 (length (proms s))); exact Same.
+  - destruct (nth_error (acts s) a); exact Same.
+  - destruct (nth_error (acts s) a) as [x|]; [|exact Same]. destruct (ach x); try exact Same. destruct c; exact Same.
+  - destruct (nth_error (acts s) a) as [x|] eqn:G; [|exact Same].
+    pose proof (HA a x G) as Hx. unfold aok in Hx.
+    destruct (pc x) as [p0 v e|p0 v e t|p0 r t|k p0|v e src|k|k ch|k p0 ch|po r|r| |po ch] eqn:Epc; try exact Same.
+    + destruct (nth_error (proms s) p0) as [q0|] eqn:G0; [|exact Same].
+      destruct (Nat.eq_dec p0 p) as [->|Hne].
+      * rewrite Gp in G0. inversion G0; subst q0. pose proof (nth_error_nth_len _ _ _ Gp) as Hl.
+        destruct (fields_published_g s p q HI Gp Hd) as (_ & _ & Hid & _). rewrite Hid.
+        cbn [proms]; eexists; (split; [apply nth_error_set_nth_same; exact Hl | cbn; repeat split; auto]).
+      * destruct (isdone q0); cbn [proms]; exists q; (split; [rewrite nth_error_set_nth_other by auto; exact Gp | repeat split; auto]).
+    + destruct Hx as [q0 [G0 _]]. rewrite G0. destruct (Nat.eq_dec p0 p) as [->|Hne].
+      * exfalso. destruct (fields_published_g s p q HI Gp Hd) as (_ & _ & _ & Hz).
+        assert (Hg : at_pubgate p x = true) by (unfold at_pubgate; rewrite Epc; apply Nat.eqb_refl).
+        pose proof (nth_error_cnt_pos (at_pubgate p) _ _ _ G Hg). lia.
+      * cbn [proms]. exists q. split; [rewrite nth_error_set_nth_other by auto; exact Gp | repeat split; auto].
+    + destruct (pick (rdy_direct s x k p0) c) as [|[|[|[|[|n]]]]]; try exact Same. destruct (nth_error (proms s) p0); exact Same.
+    + destruct (getch (cb s)); exact Same.
+    + destruct (pick (rdy_nil s x k ch) c) as [|[|[|[|n]]]]; exact Same.
+    + destruct (pick (rdy_prom s x p0 ch) c) as [|[|[|[|[|n]]]]]; try exact Same. destruct (nth_error (proms s) p0); exact Same.
+    + destruct (r || negb (opt_eqb (cprom s) po)); exact Same.
+    + destruct (getch (cb s)); exact Same.
+Qed.
+
+(* ------------------------------------------------------------------ *)
+(* C11 clause 3: an await that returns by result returns the winner's arguments *)
+
+Theorem await_returns_winner_g s a x v e p : Inv s ->
+  nth_error (acts s) a = Some x -> pc x = ARet v e (Some p) ->
+  exists q, nth_error (proms s) p = Some q /\ dclosed q = true /\ wres q = Some (v, e).
+Proof.
+  intros HI G Ep. pose proof HI as (_ & _ & HP & HA). specialize (HA a x G). unfold aok in HA. rewrite Ep in HA.
+  destruct HA as [q [Gp [Hd [<- <-]]]]. exists q. split; [exact Gp | split; [exact Hd|]].
+  now destruct (fields_published_g s p q HI Gp Hd).
+Qed.
+
+(* ------------------------------------------------------------------ *)
+(* C11 clause 4: quiescence *)
+
+Lemma quiescent_actor s a x : quiescent s = true -> nth_error (acts s) a = Some x ->
+  at_gate x = false /\ any_ready s x = false.
+Proof.
+  unfold quiescent. rewrite forallb_forall. intros H G. specialize (H x (nth_error_In _ _ G)).
+  apply andb_true_iff in H as [H1 H2]. split; [now destruct (at_gate x) | now destruct (any_ready s x)].
+Qed.
+
+Lemma quiescent_no_pubgate s p : quiescent s = true -> cnt (at_pubgate p) (acts s) = 0.
+Proof.
+  intros Hq. apply cnt_zero_forall. intros x Hin. apply In_nth_error in Hin as [a G].
+  destruct (quiescent_actor s a x Hq G) as [Hg _]. unfold at_gate in Hg. unfold at_pubgate.
+  destruct (pc x); try reflexivity; discriminate.
+Qed.
+
+Lemma first_ready_zero f : first_ready f = 0 -> f 1 = false /\ f 2 = false /\ f 3 = false /\ f 4 = false.
+Proof.
+  unfold first_ready. destruct (f 1); [discriminate|]. destruct (f 2); [discriminate|].
+  destruct (f 3); [discriminate|]. destruct (f 4); [discriminate|]. auto.
+Qed.
+
+(* at quiescence a result is published as soon as it is elected *)
+Lemma quiescent_done_closed s p q : Inv s -> quiescent s = true -> nth_error (proms s) p = Some q ->
+  dclosed q = isdone q.
+Proof.
+  intros (_ & _ & HP & _) Hq Gp. destruct (HP p q Gp) as (_ & _ & _ & P4 & _).
+  rewrite (quiescent_no_pubgate s p Hq) in P4. destruct (dclosed q), (isdone q); cbn [b2n] in P4; auto; lia.
+Qed.
+
+(* no Promise awaiter is blocked while a result is available (some SetResult won / constructed resolved),
+   its context is cancelled or its channel fired *)
+Theorem await_quiescent_g s a x k p : Inv s -> quiescent s = true ->
+  nth_error (acts s) a = Some x -> pc x = PAw k p ->
+  actx x = false /\ ch_ready k (ach x) = false /\ exists q, nth_error (proms s) p = Some q /\ isdone q = false.
+Proof.
+  intros HI Hq G Ep. destruct (quiescent_actor s a x Hq G) as [_ Hr]. unfold any_ready in Hr. rewrite Ep in Hr.
+  destruct (Nat.eqb_spec (first_ready (rdy_direct s x k p)) 0) as [Hz|]; [|discriminate].
+  apply first_ready_zero in Hz as (H1 & H2 & _ & H4). cbn [rdy_direct] in *.
+  split; [exact H1 | split; [exact H2|]].
+  pose proof HI as (_ & _ & _ & HA). specialize (HA a x G). unfold aok in HA. rewrite Ep in HA.
+  destruct (nth_error (proms s) p) as [q|] eqn:Gp; [|apply nth_error_None in Gp; lia].
+  exists q. split; [reflexivity|]. unfold pclosed in H4. rewrite Gp in H4.
+  now rewrite <- (quiescent_done_closed s p q HI Hq Gp).
+Qed.
+
+(* a container awaiter blocked at quiescence waits on the CURRENT promise (it has followed every
+   replacement), that promise has no result, and its context is live.  In the nil branch its channel
+   has not fired either.  EXCEPTION (D20, recorded): in the promise branch nothing is said about the
+   awaiter's own err / cancel channel: the code does not look at it there (container_errch_refuted). *)
+Theorem cawait_quiescent_g s a x : Inv s -> quiescent s = true -> nth_error (acts s) a = Some x ->
+  (forall k ch, pc x = CNil k ch -> actx x = false /\ ch_ready k (ach x) = false /\ cprom s = None) /\
+  (forall k p ch, pc x = CProm k p ch ->
+     actx x = false /\ cprom s = Some p /\ exists q, nth_error (proms s) p = Some q /\ isdone q = false).
+Proof.
+  intros HI Hq G. destruct (quiescent_actor s a x Hq G) as [_ Hr]. unfold any_ready in Hr.
+  pose proof HI as (_ & _ & _ & HA). specialize (HA a x G). unfold aok in HA.
+  split.
+  - intros k ch Ep. rewrite Ep in *.
+    destruct (Nat.eqb_spec (first_ready (rdy_nil s x k ch)) 0) as [Hz|]; [|discriminate].
+    apply first_ready_zero in Hz as (H1 & H2 & H3 & _). cbn [rdy_nil] in *. destruct HA as [_ HA]. auto.
+  - intros k p ch Ep. rewrite Ep in *.
+    destruct (Nat.eqb_spec (first_ready (rdy_prom s x p ch)) 0) as [Hz|]; [|discriminate].
+    apply first_ready_zero in Hz as (H1 & _ & H3 & H4). cbn [rdy_prom] in *. destruct HA as [Hp [_ HA]].
+    split; [exact H1 | split; [auto|]].
+    destruct (nth_error (proms s) p) as [q|] eqn:Gp; [|apply nth_error_None in Gp; lia].
+    exists q. split; [reflexivity|]. unfold pclosed in H4. rewrite Gp in H4.
+    now rewrite <- (quiescent_done_closed s p q HI Hq Gp).
+Qed.
+
+(* ------------------------------------------------------------------ *)
+(* C11 clause 5/6: what a container awaiter does from its select *)
+
+Lemma lookup_seta s a x np : nth_error (acts s) a = Some x ->
+  nth_error (seta s a np) a = Some {| pc := np; actx := actx x; ach := ach x |}.
+Proof. intros G. erewrite seta_eq by exact G. apply nth_error_set_nth_same. eapply nth_error_nth_len; eauto. Qed.
+
+(* every outcome of a step of an awaiter inside p.AwaitWithCancelCh(ctx, waitCh) *)
+Theorem cprom_step_cases s a x k p ch c : Inv s ->
+  nth_error (acts s) a = Some x -> pc x = CProm k p ch ->
+  let s' := step s (Step a c) in
+  s' = s \/
+  exists y, nth_error (acts s') a = Some y /\ actx y = actx x /\ ach y = ach x /\
+    proms s' = proms s /\ cb s' = cb s /\ cprom s' = cprom s /\
+    ((pc y = CGate k /\ closed (cb s) ch = true /\ actx x = false) \/
+     (pc y = ARet 0%N ECanceled None /\ actx x = true) \/
+     (exists q, nth_error (proms s) p = Some q /\ dclosed q = true /\ wres q = Some (fval q, ferr q) /\
+                pc y = ARet (fval q) (ferr q) (Some p) /\
+                (ferr q = ECanceled -> actx x = true \/ closed (cb s) ch = false))).
+Proof.
+  intros HI G Ep. cbn. unfold step. cbn [stepg]. rewrite G, Ep.
+  destruct (pick (rdy_prom s x p ch) c) as [|[|[|[|[|n]]]]] eqn:Epk; try (left; reflexivity).
+  - apply pick_ready in Epk. cbn [rdy_prom] in Epk. right. eexists. unfold with_acts; cbn [acts proms cb cprom].
+    split; [apply lookup_seta; exact G|]. cbn [pc actx ach]. repeat split; auto.
+  - apply pick_ready in Epk. cbn [rdy_prom] in Epk. right. eexists. unfold with_acts; cbn [acts proms cb cprom].
+    split; [apply lookup_seta; exact G|]. cbn [pc actx ach]. repeat split; auto.
+    destruct (actx x); [right; left; auto | left; auto].
+  - apply pick_ready in Epk. cbn [rdy_prom] in Epk. apply pclosed_true in Epk as [q [Gp Hd]]. rewrite Gp.
+    destruct (fields_published_g s p q HI Gp Hd) as (Hw & _).
+    right. eexists. unfold with_acts; cbn [acts proms cb cprom].
+    split; [apply lookup_seta; exact G|]. cbn [pc actx ach]. repeat split; auto.
+    destruct (ferr q) eqn:Ef.
+    + right; right. exists q. rewrite Ef. repeat split; auto. discriminate.
+    + destruct (actx x) eqn:Ec.
+      * right; right. exists q. rewrite Ef. repeat split; auto.
+      * destruct (closed (cb s) ch) eqn:Ecl.
+        -- left. auto.
+        -- right; right. exists q. rewrite Ef. repeat split; auto.
+    + right; right. exists q. rewrite Ef. repeat split; auto. discriminate.
+    + right; right. exists q. rewrite Ef. repeat split; auto. discriminate.
+Qed.
+
+Lemma pick_only4 f c : f 1 = false -> f 2 = false -> f 3 = false -> f 4 = true ->
+  (forall n, 4 < n -> f n = false) -> f 0 = false -> pick f c = 4.
+Proof.
+  intros H1 H2 H3 H4 Hbig H0. unfold pick, first_ready.
+  destruct (f c) eqn:E; [|now rewrite H1, H2, H3, H4].
+  destruct c as [|[|[|[|[|n]]]]]; try congruence. rewrite Hbig in E by lia. discriminate.
+Qed.
+
+(* the awaiter returns the result of the promise that is current, WHATEVER its error (also context.Canceled) *)
+Theorem container_returns_current_g s a x k p ch q c : Inv s ->
+  nth_error (acts s) a = Some x -> pc x = CProm k p ch ->
+  nth_error (proms s) p = Some q -> dclosed q = true -> actx x = false -> closed (cb s) ch = false ->
+  cprom s = Some p /\ wres q = Some (fval q, ferr q) /\
+  exists y, nth_error (acts (step s (Step a c))) a = Some y /\ pc y = ARet (fval q) (ferr q) (Some p).
+Proof.
+  intros HI G Ep Gp Hd Hc Hcl. pose proof HI as (_ & _ & _ & HA). specialize (HA a x G). unfold aok in HA. rewrite Ep in HA.
+  destruct HA as (_ & _ & Hcur). split; [auto|]. destruct (fields_published_g s p q HI Gp Hd) as (Hw & _). split; [exact Hw|].
+  unfold step. cbn [stepg]. rewrite G, Ep.
+  rewrite (pick_only4 (rdy_prom s x p ch) c); cbn [rdy_prom]; auto.
+  - rewrite Gp. unfold with_acts; cbn [acts]. eexists. split; [apply lookup_seta; exact G|]. cbn [pc].
+    rewrite Hc, Hcl. now destruct (ferr q).
+  - unfold pclosed. now rewrite Gp.
+  - intros n Hn. destruct n as [|[|[|[|[|n]]]]]; try lia; reflexivity.
+Qed.
+
+(* ------------------------------------------------------------------ *)
+(* C11 clause 7: no spinning -- an awaiter run alone blocks or returns within 3 segments *)
+
+Definition stable (s : st) (a : nat) : Prop :=
+  exists y, nth_error (acts s) a = Some y /\ (returned y = true \/ (at_select y = true /\ any_ready s y = false)).
+
+Lemma pick_zero f c : first_ready f = 0 -> (forall n, n = 0 \/ 4 < n -> f n = false) -> pick f c = 0.
+Proof.
+  intros Hz Hout. unfold pick. destruct (f c) eqn:E; [|exact Hz].
+  apply first_ready_zero in Hz as (H1 & H2 & H3 & H4).
+  destruct c as [|[|[|[|[|n]]]]]; try congruence; rewrite Hout in E by lia; discriminate.
+Qed.
+
+Lemma rdy_direct_out s x k p n : n = 0 \/ 4 < n -> rdy_direct s x k p n = false.
+Proof. intros [->|H]; [reflexivity|]. destruct n as [|[|[|[|[|n]]]]]; try lia; reflexivity. Qed.
+Lemma rdy_nil_out s x k ch n : n = 0 \/ 4 < n -> rdy_nil s x k ch n = false.
+Proof. intros [->|H]; [reflexivity|]. destruct n as [|[|[|[|[|n]]]]]; try lia; reflexivity. Qed.
+Lemma rdy_prom_out s x p ch n : n = 0 \/ 4 < n -> rdy_prom s x p ch n = false.
+Proof. intros [->|H]; [reflexivity|]. destruct n as [|[|[|[|[|n]]]]]; try lia; reflexivity. Qed.
+
+(* a blocked or returned actor does nothing when scheduled: no CPU is consumed *)
+Lemma stable_absorb fixed s a c : stable s a -> stepg fixed s (Step a c) = s.
+Proof.
+  intros [y [G [Hr|[Hs Hn]]]]; cbn [stepg]; rewrite G.
+  - unfold returned in Hr. destruct (pc y); try discriminate; reflexivity.
+  - unfold at_select in Hs. unfold any_ready in Hn. destruct (pc y) as [| | |k p| | |k ch|k p ch| | | |]; try discriminate.
+    + destruct (Nat.eqb_spec (first_ready (rdy_direct s y k p)) 0) as [Hz|]; [|discriminate].
+      now rewrite (pick_zero _ c Hz (rdy_direct_out s y k p)).
+    + destruct (Nat.eqb_spec (first_ready (rdy_nil s y k ch)) 0) as [Hz|]; [|discriminate].
+      now rewrite (pick_zero _ c Hz (rdy_nil_out s y k ch)).
+    + destruct (Nat.eqb_spec (first_ready (rdy_prom s y p ch)) 0) as [Hz|]; [|discriminate].
+      now rewrite (pick_zero _ c Hz (rdy_prom_out s y p ch)).
+Qed.
+
+Lemma pick_cases f c : (forall n, n = 0 \/ 4 < n -> f n = false) ->
+  (pick f c = 0 /\ first_ready f = 0) \/ (exists n, pick f c = S n /\ n < 4 /\ f (S n) = true).
+Proof.
+  intros Hout. destruct (pick f c) as [|n] eqn:E.
+  - left. split; [reflexivity|]. unfold pick in E. destruct (f c) eqn:Ec; [|exact E]. subst c. rewrite Hout in Ec by auto. discriminate.
+  - right. exists n. pose proof (pick_ready f c n E) as Hr. split; [reflexivity | split; [|exact Hr]].
+    destruct (Nat.lt_ge_cases n 4) as [Hl|Hl]; [exact Hl|]. rewrite Hout in Hr by lia. discriminate.
+Qed.
+
+(* one step of the current code from a select: blocked, returned, or (container) back to the gate because
+   the wait channel is closed *)
+Lemma sel_progress s a x c : nth_error (acts s) a = Some x -> at_select x = true ->
+  let s' := step s (Step a c) in
+  (s' = s /\ any_ready s x = false) \/
+  (exists y, nth_error (acts s') a = Some y /\ cb s' = cb s /\
+     (returned y = true \/
+      exists k ch, pc y = CGate k /\ closed (cb s) ch = true /\ (pc x = CNil k ch \/ exists p, pc x = CProm k p ch))).
+Proof.
+  intros G Hs. cbn. unfold step. cbn [stepg]. rewrite G. unfold at_select in Hs. unfold any_ready.
+  destruct (pc x) as [| | |k p| | |k ch|k p ch| | | |] eqn:Ep; try discriminate.
+  - destruct (pick_cases (rdy_direct s x k p) c (rdy_direct_out s x k p)) as [[E Hz]|[n [E [Hn Hr]]]]; rewrite E.
+    + left. rewrite Hz. auto.
+    + destruct n as [|[|[|[|n]]]]; try lia; try (cbn [rdy_direct] in Hr; discriminate).
+      * right. eexists. unfold with_acts; cbn [acts cb]. split; [apply lookup_seta; exact G | auto].
+      * right. eexists. unfold with_acts; cbn [acts cb]. split; [apply lookup_seta; exact G | auto].
+      * cbn [rdy_direct] in Hr. apply pclosed_true in Hr as [q [Gp _]]. rewrite Gp.
+        right. eexists. unfold with_acts; cbn [acts cb]. split; [apply lookup_seta; exact G | auto].
+  - destruct (pick_cases (rdy_nil s x k ch) c (rdy_nil_out s x k ch)) as [[E Hz]|[n [E [Hn Hr]]]]; rewrite E.
+    + left. rewrite Hz. auto.
+    + destruct n as [|[|[|[|n]]]]; try lia; try (cbn [rdy_nil] in Hr; discriminate).
+      * right. eexists. unfold with_acts; cbn [acts cb]. split; [apply lookup_seta; exact G | auto].
+      * right. eexists. unfold with_acts; cbn [acts cb]. split; [apply lookup_seta; exact G | auto].
+      * cbn [rdy_nil] in Hr. right. eexists. unfold with_acts; cbn [acts cb]. split; [apply lookup_seta; exact G|].
+        split; [reflexivity|]. right. exists k, ch. cbn [pc]. auto.
+  - destruct (pick_cases (rdy_prom s x p ch) c (rdy_prom_out s x p ch)) as [[E Hz]|[n [E [Hn Hr]]]]; rewrite E.
+    + left. rewrite Hz. auto.
+    + destruct n as [|[|[|[|n]]]]; try lia; try (cbn [rdy_prom] in Hr; discriminate).
+      * right. eexists. unfold with_acts; cbn [acts cb]. split; [apply lookup_seta; exact G | auto].
+      * cbn [rdy_prom] in Hr. right. eexists. unfold with_acts; cbn [acts cb]. split; [apply lookup_seta; exact G|].
+        split; [reflexivity|]. destruct (actx x); cbn [pc]; [left; reflexivity|].
+        right. exists k, ch. cbn [pc]. eauto.
+      * cbn [rdy_prom] in Hr. apply pclosed_true in Hr as [q [Gp _]]. rewrite Gp.
+        right. eexists. unfold with_acts; cbn [acts cb]. split; [apply lookup_seta; exact G|].
+        split; [reflexivity|]. cbn [pc].
+        destruct (ferr q); try (left; reflexivity). destruct (actx x); [left; reflexivity|].
+        destruct (closed (cb s) ch) eqn:Ecl; [|left; reflexivity].
+        right. exists k, ch. eauto.
+Qed.
+
+(* the section of a container awaiter hands it a fresh (open) wait channel *)
+Lemma gate_step fixed s a x k c : Inv s -> nth_error (acts s) a = Some x -> pc x = CGate k ->
+  let s' := stepg fixed s (Step a c) in
+  exists y ch, nth_error (acts s') a = Some y /\ closed (cb s') ch = false /\
+               (pc y = CNil k ch \/ exists p, pc y = CProm k p ch).
+Proof.
+  intros (Hwf & _) G Ep. cbn [stepg]. rewrite G, Ep.
+  pose proof (getch_facts (cb s) Hwf) as (F1 & F2 & F3 & F4 & F5). destruct (getch (cb s)) as [b' ch]. cbn [fst snd] in *.
+  cbn [acts cb]. eexists; exists ch. split; [apply lookup_seta; exact G|]. split; [exact F4|]. cbn [pc].
+  destruct (cprom s) as [p|]; [right; eauto | left; reflexivity].
+Qed.
+
+Lemma fresh_sel_stable s a y k ch c : nth_error (acts s) a = Some y ->
+  (pc y = CNil k ch \/ exists p, pc y = CProm k p ch) -> closed (cb s) ch = false ->
+  stable (step s (Step a c)) a.
+Proof.
+  intros G Hp Hcl.
+  assert (Hs : at_select y = true) by (unfold at_select; destruct Hp as [->|[p ->]]; reflexivity).
+  destruct (sel_progress s a y c G Hs) as [[E Hn]|[z [Gz [_ [Hr|[k' [ch' [_ [Hc Hx]]]]]]]]].
+  - rewrite E. exists y. auto.
+  - exists z. auto.
+  - exfalso. assert (ch' = ch) by (destruct Hp as [E1|[p1 E1]], Hx as [E2|[p2 E2]]; congruence). subst ch'. congruence.
+Qed.
+
+Theorem no_spin_g s a x c1 c2 c3 : Inv s -> nth_error (acts s) a = Some x ->
+  at_select x = true \/ (exists k, pc x = CGate k) ->
+  stable (solo true s a [c1; c2; c3]) a.
+Proof.
+  intros HI G Hx. unfold solo. cbn [fold_left].
+  change (stable (step (step (step s (Step a c1)) (Step a c2)) (Step a c3)) a).
+  destruct Hx as [Hs|[k Ep]].
+  - destruct (sel_progress s a x c1 G Hs) as [[E Hn]|[y [Gy [Ecb [Hr|[k [ch [Epy [Hc Hx]]]]]]]]].
+    + rewrite E. assert (St : stable s a) by (exists x; auto).
+      unfold step. rewrite (stable_absorb true s a c2 St), (stable_absorb true s a c3 St). exact St.
+    + assert (St : stable (step s (Step a c1)) a) by (exists y; auto).
+      unfold step in *. rewrite (stable_absorb true _ a c2 St), (stable_absorb true _ a c3 St). exact St.
+    + pose proof (stepg_inv true s (Step a c1) HI) as HI1. fold step in HI1.
+      destruct (gate_step true _ a y k c2 HI1 Gy Epy) as [z [ch2 [Gz [Hcl Hpz]]]]. fold step in Gz, Hcl.
+      exact (fresh_sel_stable _ a z k ch2 c3 Gz Hpz Hcl).
+  - destruct (gate_step true s a x k c1 HI G Ep) as [z [ch2 [Gz [Hcl Hpz]]]]. fold step in Gz, Hcl.
+    pose proof (fresh_sel_stable _ a z k ch2 c2 Gz Hpz Hcl) as St.
+    unfold step in *. rewrite (stable_absorb true _ a c3 St). exact St.
+Qed.
+
+(* ------------------------------------------------------------------ *)
+(* the two refutations *)
+
+(* D11: the code before 27bd93c.  A lone awaiter of a container resolved with (3, context.Canceled):
+   from state s it runs two segments (section; select) and is back in s, for every choice, for ever. *)
+Definition d11_events : list ev :=
+  [CallCAwait KAwait; CallCSetResult 3%N ECanceled; Step 1 0; Step 0 0; Step 0 0].
+
+Theorem pinned_refuted_g :
+  let s := run_pinned d11_events in
+  (exists x, nth_error (acts s) 0 = Some x /\ pc x = CGate KAwait /\ actx x = false) /\
+  cprom s = Some 0 /\ (exists q, nth_error (proms s) 0 = Some q /\ dclosed q = true /\ fval q = 3%N /\ ferr q = ECanceled) /\
+  forall c1 c2, solo false s 0 [c1; c2] = s.
+Proof.
+  cbn zeta. split; [eexists; vm_compute; repeat split | split; [reflexivity | split; [eexists; vm_compute; repeat split|]]].
+  intros c1 c2. unfold solo. cbn [fold_left].
+  assert (E1 : stepg false (run_pinned d11_events) (Step 0 c1) = stepg false (run_pinned d11_events) (Step 0 0)) by reflexivity.
+  rewrite E1.
+  destruct c2 as [|[|[|[|[|c2]]]]]; vm_compute; reflexivity.
+Qed.
+
+(* the current code returns that result *)
+Lemma d11_fixed_returns :
+  exists x, nth_error (acts (run d11_events)) 0 = Some x /\ pc x = ARet 3%N ECanceled (Some 0).
+Proof. eexists. vm_compute. split; reflexivity. Qed.
+
+(* D20 (recorded, not repaired): a container awaiter with a pending promise current stays blocked at
+   quiescence although its error channel has fired and its context is live *)
+Definition d20_events : list ev :=
+  [NewPromise; CallCSetPromise (Some 0); Step 0 0; CallCAwait KErrCh; Step 1 0; Step 1 0; FireCh 1 (ChVal (EOther 0)); Step 1 0].
+
+Theorem container_errch_refuted_g :
+  let s := run d20_events in
+  quiescent s = true /\
+  exists x ch, nth_error (acts s) 1 = Some x /\ pc x = CProm KErrCh 0 ch /\ actx x = false /\ ch_ready KErrCh (ach x) = true.
+Proof. cbn zeta. split; [vm_compute; reflexivity|]. eexists; eexists. vm_compute. repeat split. Qed.
+
+(* ------------------------------------------------------------------ *)
+(* the statements of Props_C11.v that combine several of the lemmas above *)
+
+Theorem fields_published_run es p q :
+  let s := run es in
+  nth_error (proms s) p = Some q -> dclosed q = true ->
+  (wres q = Some (fval q, ferr q) /\ nwrites q = 1 /\ isdone q = true /\ cnt (at_pubgate p) (acts s) = 0) /\
+  forall e, exists q', nth_error (proms (step s e)) p = Some q' /\
+                       dclosed q' = true /\ fval q' = fval q /\ ferr q' = ferr q /\ nwrites q' = nwrites q /\ wres q' = wres q.
+Proof.
+  intros s Gp Hd. split; [exact (fields_published_g s p q (run_inv es) Gp Hd)|].
+  intros e. exact (closed_stable true s e p q (run_inv es) Gp Hd).
+Qed.
+
+Theorem await_quiescent_run es a x :
+  let s := run es in
+  quiescent s = true -> nth_error (acts s) a = Some x ->
+  (forall k p, pc x = PAw k p ->
+     actx x = false /\ ch_ready k (ach x) = false /\ exists q, nth_error (proms s) p = Some q /\ isdone q = false) /\
+  (forall k ch, pc x = CNil k ch -> actx x = false /\ ch_ready k (ach x) = false /\ cprom s = None) /\
+  (forall k p ch, pc x = CProm k p ch ->
+     actx x = false /\ cprom s = Some p /\ exists q, nth_error (proms s) p = Some q /\ isdone q = false).
+Proof.
+  intros s Hq G. split.
+  - intros k p Ep. exact (await_quiescent_g s a x k p (run_inv es) Hq G Ep).
+  - exact (cawait_quiescent_g s a x (run_inv es) Hq G).
+Qed.
+
+Theorem container_follows_replacement_run es a x k p ch c :
+  let s := run es in
+  nth_error (acts s) a = Some x -> pc x = CProm k p ch ->
+  (closed (cb s) ch = false -> cprom s = Some p) /\
+  let s' := step s (Step a c) in
+  (s' = s \/
+   exists y, nth_error (acts s') a = Some y /\ actx y = actx x /\ ach y = ach x /\
+     proms s' = proms s /\ cb s' = cb s /\ cprom s' = cprom s /\
+     ((pc y = CGate k /\ closed (cb s) ch = true /\ actx x = false) \/
+      (pc y = ARet 0%N ECanceled None /\ actx x = true) \/
+      (exists q, nth_error (proms s) p = Some q /\ dclosed q = true /\ wres q = Some (fval q, ferr q) /\
+                 pc y = ARet (fval q) (ferr q) (Some p) /\
+                 (ferr q = ECanceled -> actx x = true \/ closed (cb s) ch = false)))).
+Proof.
+  intros s G Ep. split.
+  - destruct (run_inv es) as (_ & _ & _ & HA). specialize (HA a x G). unfold aok in HA. rewrite Ep in HA. tauto.
+  - exact (cprom_step_cases s a x k p ch c (run_inv es) G Ep).
+Qed.
+
+Theorem no_spin_run es a x c1 c2 c3 :
+  let s := run es in
+  nth_error (acts s) a = Some x ->
+  at_select x = true \/ (exists k, pc x = CGate k) ->
+  let s' := solo true s a [c1; c2; c3] in
+  (exists y, nth_error (acts s') a = Some y /\ (returned y = true \/ (at_select y = true /\ any_ready s' y = false))) /\
+  forall c, step s' (Step a c) = s'.
+Proof.
+  intros s G Hx s'.
+  pose proof (no_spin_g s a x c1 c2 c3 (run_inv es) G Hx) as St. split; [exact St|].
+  intros c. exact (stable_absorb true s' a c St).
+Qed.
+
+(* ------------------------------------------------------------------ *)
+(* BOUNDED tie between monitors and model (no unbounded model_satisfies_monitors theorem is proved):
+   exhaustive sweep, by computation, over ALL sequences of at most d events drawn from the candidate
+   alphabet [cands] below and accepted by the Spec-level step: the monitors, run on the model's own
+   observations, report nothing except clause 7 (the recorded finding D20, which the model exhibits). *)
+From Util Require Import Promise.Spec.
+
+Definition dedup (l : list (list N)) : list (list N) := nodup (list_eq_dec N.eq_dec) l.
+
+(* the status triples actor a can have after taking select case c = 0..4 in state s *)
+Definition hints_of (s : st) (a : nat) : list (list N) :=
+  dedup (map (fun c => acode (step s (Step a c)) a) [0; 1; 2; 3; 4]).
+
+Definition cands (h : hst) : list (list N) :=
+  let s := ms h in
+  let na := length (acts s) in
+  let ps := map N.of_nat (seq 0 (length (proms s))) in
+  let actors := seq 0 na in
+  ([[1]; [10; 3; 1]; [9; 0]; [11]; [8; 0; 0; 0]; [8; 1; 0; 0]; [8; 1; 1; 0]; [8; 2; 0; 1]]%N) ++
+  flat_map (fun p : N =>
+    ([[9; p + 1]; [3; p; 5; 0]; [3; p; 2; 1]]%N) ++
+    flat_map (fun kc : N * N * N =>
+      let '(k, ctx, ch) := kc in
+      match kind_of k with
+      | Some kk => map (fun hint => ([4; k; p; ctx; ch]%N) ++ hint)
+                       (hints_of (pre_env (step s (CallAwait kk (N.to_nat p))) na ctx ch) na)
+      | None => []
+      end) ([(0, 0, 0); (0, 1, 0); (1, 0, 3); (2, 0, 0)]%N)) ps ++
+  flat_map (fun a : nat =>
+    let an := N.of_nat a in
+    ([[6; an]; [7; an; 1]; [7; an; 5]]%N) ++
+    map (fun hint => ([5; an]%N) ++ hint) (hints_of (step s (Step a 0)) a ++ [[0; 0; 0]%N]) ++
+    map (fun hint => ([12; an]%N) ++ hint) (hints_of s a)) actors.
+
+Definition only_d20 (fails : list (nat * nat)) : bool :=
+  forallb (fun f => Nat.eqb (fst f) 11 && Nat.eqb (snd f) 7) fails.
+
+Fixpoint sweep (d : nat) (h : hst) (m : mstt) : bool :=
+  match d with
+  | 0 => true
+  | S d' =>
+    forallb (fun e =>
+      match hstep h e with
+      | None => true
+      | Some (h', o) => let '(m', fails) := mon m e o in only_d20 fails && sweep d' h' m'
+      end) (cands h)
+  end.
+
+(* number of accepted sequences explored (for the record) *)
+Fixpoint sweep_count (d : nat) (h : hst) : N :=
+  match d with
+  | 0 => 1%N
+  | S d' =>
+    fold_left (fun acc e => match hstep h e with None => acc | Some (h', _) => (acc + sweep_count d' h')%N end) (cands h) 1%N
+  end.
+
+(* run a fixed prefix through model and monitors (every event must be accepted and raise nothing but clause 7), then sweep *)
+Fixpoint sweep_from (prefix : list (list N)) (d : nat) (h : hst) (m : mstt) : bool :=
+  match prefix with
+  | [] => sweep d h m
+  | e :: rest =>
+    match hstep h e with
+    | None => false
+    | Some (h', o) => let '(m', fails) := mon m e o in only_d20 fails && sweep_from rest d h' m'
+    end
+  end.
+
+(* a pending promise is current and a container AwaitWithErrCh is blocked on it (the D20 situation is 1 event away) *)
+Definition prefix_pending : list (list N) := [[1]; [9; 1]; [5; 0; 5; 0; 0]; [8; 1; 0; 0]; [5; 1; 2; 0; 0]]%N.
+(* the same with exit gates: the awaiter is parked at the exit gate of its section *)
+Definition prefix_pending_x : list (list N) := [[1]; [9; 1]; [5; 0; 5; 0; 0]; [8; 1; 0; 0]; [5; 1; 1; 0; 0]]%N.
+(* two SetResult calls have raced on a promise with a blocked awaiter; the winner is parked before its writes *)
+Definition prefix_race : list (list N) := [[1]; [4; 0; 0; 0; 0; 2; 0; 0]; [3; 0; 5; 0]; [3; 0; 2; 1]]%N.
+
+Theorem monitors_accept_model_bounded :
+  sweep 5 (hinit [0%N]) minit = true /\
+  sweep 4 (hinit [1%N]) minit = true /\
+  sweep_from prefix_pending 4 (hinit [0%N]) minit = true /\
+  sweep_from prefix_pending_x 4 (hinit [1%N]) minit = true /\
+  sweep_from prefix_race 4 (hinit [0%N]) minit = true.
+Proof.
+  split; [vm_cast_no_check (eq_refl true)|].
+  split; [vm_cast_no_check (eq_refl true)|].
+  split; [vm_cast_no_check (eq_refl true)|].
+  split; vm_cast_no_check (eq_refl true).
 Qed.
